@@ -3,8 +3,11 @@
 //
 // Two case kinds:
 //
-//	@ C13 dlist <z|n> <z|n>   two DList[int] (zero value or NewDoubly), node handles = allocation order
-//	@ C13 slist               one SList[int]
+//	@ C13 dlist <z|n> <z|n> [big]   two DList[int] (zero value or NewDoubly), node handles = allocation order
+//	@ C13 slist [z|n] [big]         one SList[int] (zero value or NewSingly)
+//
+// `big` = long lists: the dumps are digests (count + hash) of the complete traversals.
+// Bulk lines: `pushn L k`, `removen L k`, `removebn L k` (DList), `pushn k`, `removen k`, `removeln k` (SList).
 //
 // After every operation both sides print the result and a full dump of the list(s):
 // Len, ids front-to-back via Front/Next, ids back-to-front via Back/Prev, values via All().
@@ -41,7 +44,7 @@ func init() {
 			}
 			return changed >= 3 && noop >= 1
 		},
-		Rule:     "op sequences on two DList[int] (all Push/Insert/Move/Remove forms, node-inserting forms with detached nodes, PushBackDList/PushFrontDList incl. onto itself; handles 60% live / 25% removed / 15% of the other list) or on one SList[int] (index ops with indices -1..len+1 and, one in eight, huge ones: ±2^31±j, ±2^32±j, ±2^33+j, MaxInt-j, MinInt+j; Len/Front/Back/Next observers incl. Next of removed nodes); non-trivial = at least three operations changed a list and at least one mutator was a no-op (stale/foreign handle, out-of-range index, move onto itself); distinct by hash of the op list",
+		Rule:     "op sequences on two DList[int] (all Push/Insert/Move/Remove forms, node-inserting forms with detached nodes, PushBackDList/PushFrontDList incl. onto itself; handles 60% live / 25% removed / 15% of the other list) or on one SList[int] (index ops with indices -1..len+1 and, one in eight, huge ones: ±2^31±j, ±2^32±j, ±2^33+j, MaxInt-j, MinInt+j; Len/Front/Back/Next observers incl. Next of removed nodes); plus a stream of long lists (100-20000 nodes, thorough up to 65537; bulk pushn/removen, index and handle operations at positions 0, 1, n/2, n-2, n-1, n, n+1, self-copies doubling the list, digests of the full forward/backward/All() traversals) and a stream of phased histories (the same node removed and re-inserted many times through the *Node entry points, move chains, drain - Init - reuse, fill - drain - refill of an SList); non-trivial = at least three operations changed a list and at least one mutator was a no-op (stale/foreign handle, out-of-range index, move onto itself); distinct by hash of the op list",
 		Classify: classify,
 		Parallel: true,
 		Assumptions: []string{
@@ -77,6 +80,18 @@ func kind(c core.Case) string {
 }
 
 func gen(r *core.Rand, tier string) core.Case {
+	switch r.Pick(3, 16, 181) {
+	case 0: // long lists: 1.5 % of the cases (a few hundred in quick)
+		if r.Chance(55) {
+			return genDLarge(r, tier)
+		}
+		return genSLarge(r, tier)
+	case 1: // phased histories on the same objects
+		if r.Chance(60) {
+			return genDHistory(r, tier)
+		}
+		return genSHistory(r, tier)
+	}
 	if r.Chance(65) {
 		return genD(r, tier)
 	}
@@ -158,6 +173,12 @@ func corpus() []core.Case {
 		{Lines: []string{"@ C13 slist", "len", "front", "back", "pb 5", "front", "back", "next 0", "pb 6", "pb 7", "next 0", "rm 1", "next 1", "next 0", "pbn 1", "next 2", "next 1", "rmf", "next 0", "insn 1 0", "swap 0 2", "swap 2 0", "swap 1 1", "swap 0 3", "ins 3 8", "ins 4 9", "rm 4", "back", "len"}},
 		// SList: indices that a 32-bit or unsigned range test would accept (k*2^32 + j, ±2^31, int range ends)
 		{Lines: []string{"@ C13 slist", "pb 1", "pb 2", "pb 3", "get 4294967296", "get -4294967296", "get 4294967297", "get -4294967295", "get 2147483648", "get -2147483648", "get 8589934593", "get 9223372036854775807", "get -9223372036854775808", "swap 1 4294967296", "swap -4294967294 0", "swap 4294967296 4294967298", "swap 0 -9223372036854775808", "rm -4294967296", "rm 4294967297", "rm -9223372036854775807", "rm 8589934592", "ins 4294967296 7", "ins -4294967295 8", "ins -9223372036854775808 9", "ins 9223372036854775807 6", "new 5", "insn -4294967294 7", "rm 1", "insn 4294967297 1", "len"}},
+		// long lists: self-copy doubling, traversals in both directions, handles at the ends and in the middle
+		{Lines: []string{"@ C13 dlist z n big", "pushn A 257", "pbl A A", "pfl A A", "mtb A 2", "mtf A 258", "mb A 130 2", "rm A 129", "pbn B 129", "pbl B A", "removen A 1000", "removebn A 100", "len A", "pbl A A", "prev 258", "next 2"}, Tag: "large"},
+		{Lines: []string{"@ C13 slist z big", "pushn 1025", "get 1024", "get 1025", "rm 1024", "rm 512", "rm 0", "ins 1022 5", "ins 1021 6", "swap 0 1022", "swap 511 1023", "get 1023", "removeln 1023", "back", "pushn 17", "rm 16", "back", "len"}, Tag: "large"},
+		// histories: the same node through every *Node entry point, then used as a handle
+		{Lines: []string{"@ C13 dlist n z", "pb A 1", "pb A 2", "pb A 3", "rm A 3", "pbn A 3", "prev 3", "next 3", "rm A 3", "pfn A 3", "next 3", "rm A 3", "inb A 3 4", "prev 4", "rm A 3", "ina B 3 2", "ina A 3 2", "mtb A 3", "rm A 3", "pbn B 3", "prev 3", "ib B 7 3", "rm B 3", "removen A 9", "init A", "pbn A 3", "pb A 4", "mtf A 4", "prev 3"}, Tag: "history"},
+		{Lines: []string{"@ C13 slist n", "pb 1", "pb 2", "pb 3", "rm 2", "back", "rm 1", "back", "rm 0", "back", "len", "pbn 2", "back", "pfn 0", "insn 1 1", "back", "rmf", "rmf", "rmf", "back", "front", "pb 9", "back", "rm 0", "pbn 0", "next 0", "back"}, Tag: "history"},
 		// SList: head/tail bookkeeping at sizes 0,1,2
 		{Lines: []string{"@ C13 slist", "rmf", "rm 0", "get 0", "pb 1", "rm 0", "pf 2", "rmf", "ins 5 3", "ins -1 4", "ins 1 5", "rm 2", "rm 1", "rm 0", "swap 0 0"}},
 		{Lines: []string{"@ C13 slist", "pb 1", "pb 2", "pb 3", "swap 0 2", "swap 2 1", "swap 1 3", "swap -1 0", "rm 2", "pb 4", "rm 0", "pf 5", "get 2", "get 3", "get -1", "new 9", "insn 1 5", "rm 1", "pbn 5", "rm 3", "pfn 5"}},
